@@ -182,6 +182,9 @@ pub fn tables() -> Vec<(&'static str, String)> {
         ("exempt-only", "é\nÉ\nc\n".to_string()),
         // keys whose characters have different UTF-8 widths (narrow first, wide first)
         ("mixed-width-keys", "aあ X\naあ𠮷 YY\nあa Z\n𠮷a W\né𠮷b V\nbé𠮷 U\na𠮷𠮷 T\n".to_string()),
+        // rules whose value equals their key: they change nothing themselves, but they keep their span
+        // from being lower-cased / normalised and they shadow shorter keys inside it
+        ("identity-rules", "É É\nbc bc\nc x\nAb Ab\nｶﾞ ｶﾞ\nﾞ y\n".to_string()),
     ]
 }
 
